@@ -91,3 +91,119 @@ def insert_auto_interleaved(k, named_first, family="paragraph", **kw):
     ok = len(names) == len(set(names)) and rb not in (ra, rc) and doc.get_style(family, rb)._Element__element is b._Element__element
     ok = ok and doc.get_style(family, rc)._Element__element is c._Element__element
     return (not ok), f"names returned {ra!r}, {rc!r}, {rb!r}; automatic {family} names {names}"
+
+
+# ---- merge_styles_from ---------------------------------------------------------------------------
+MNAMES = ["a", "b", "a b"]
+
+
+def _mark(st, mark):
+    st.set_attribute("style:class", mark)
+    return st
+
+
+def _snapshot(doc):
+    return doc.styles.serialize(), doc.content.serialize()
+
+
+def _dups(doc):
+    seen, dups = set(), []
+    for part in (doc.styles, doc.content):
+        for cname in ("office:font-face-decls", "office:styles", "office:automatic-styles", "office:master-styles"):
+            cont = part.get_element("//" + cname)
+            if cont is None:
+                continue
+            for ch in cont.children:
+                key = (part.__class__.__name__, cname, ch.tag, ch.get_attribute("style:family"), ch.get_attribute("style:name") or ch.get_attribute("draw:name"))
+                if key in seen:
+                    dups.append(key)
+                seen.add(key)
+    return dups
+
+
+def merge_named(k2, automatic, other_default, k1=0, family="paragraph", **kw):
+    n1, n2 = "vx" + MNAMES[k1], "vx" + MNAMES[k2]
+    of = "text" if family != "text" else "paragraph"
+    dest, other = Document("text"), Document("text")
+    dest.insert_style(_mark(_mk(family, n1), "mine"), automatic=automatic)
+    dest.insert_style(_mark(_mk(of, n1), "mine-other-family"))
+    other.insert_style(_mark(_mk(family, n2), "theirs"), automatic=automatic)
+    if other_default:
+        other.insert_style(_mark(Style(family), "theirs"), default=True)
+    before = _snapshot(other)
+    dest.merge_styles_from(other)
+    notes = []
+    if _snapshot(other) != before:
+        notes.append("the other document was changed by the merge")
+    if _dups(dest):
+        notes.append(f"duplicated styles {_dups(dest)}")
+    got = dest.get_style(family, n2)
+    if got is None or got.get_attribute("style:class") != "theirs":
+        notes.append(f"lookup of ({family}, {n2}) gives {got!r} / {got is not None and got.get_attribute('style:class')}")
+    if n1 != n2:
+        g1 = dest.get_style(family, n1)
+        if g1 is None or g1.get_attribute("style:class") != "mine":
+            notes.append(f"dest's own ({family}, {n1}) is gone or replaced")
+    g = dest.get_style(of, n1)
+    if g is None or g.get_attribute("style:class") != "mine-other-family":
+        notes.append(f"dest's ({of}, {n1}) is gone or replaced")
+    d = dest.get_style(family)
+    if d is None or (other_default and d.get_attribute("style:class") != "theirs"):
+        notes.append("default style of the family missing or not the other document's")
+    return bool(notes), "; ".join(notes) or "union, theirs win, other unchanged"
+
+
+def merge_kind(same, extra_default, family="master-page", **kw):
+    dest, other = Document("text"), Document("text")
+    n1 = "vxK" if same else "vxK other"
+    dflt = family == "font-face"
+    dest.insert_style(_mark(_mk(family, n1), "mine"), default=dflt)
+    dest.insert_style(_mark(_mk("paragraph", "vxK"), "mine-paragraph"))
+    other.insert_style(_mark(_mk(family, "vxK"), "theirs"), default=dflt)
+    before = _snapshot(other)
+    dest.merge_styles_from(other)
+    notes = []
+    if _snapshot(other) != before:
+        notes.append("the other document was changed by the merge")
+    if _dups(dest):
+        notes.append(f"duplicated styles {_dups(dest)}")
+    got = dest.get_style(family, "vxK")
+    if got is None or got.get_attribute("style:class") != "theirs":
+        notes.append(f"lookup of ({family}, vxK) does not give the other document's definition")
+    if not same:
+        g1 = dest.get_style(family, n1)
+        if g1 is None or g1.get_attribute("style:class") != "mine":
+            notes.append("dest's own style of another name is gone")
+    kp = dest.get_style("paragraph", "vxK")
+    if kp is None or kp.get_attribute("style:class") != "mine-paragraph":
+        notes.append("dest's paragraph style of the same name is gone")
+    return bool(notes), "; ".join(notes) or "ok"
+
+
+def merge_marker(twice, n_defaults, own_marker, **kw):
+    from odfdo import Element
+    dest, other = Document("text"), Document("text")
+
+    def defaults(d):
+        return sorted(s.family for s in d.styles.get_element("//office:styles").children if s.tag == "style:default-style")
+
+    def marker(mark):
+        return Element.from_tag('<draw:marker draw:name="Arrow" style:class="%s" svg:viewBox="0 0 20 30" svg:d="M10 0l10 30h-20z"/>' % mark)
+
+    if own_marker:
+        dest.styles.get_element("//office:styles").append(marker("mine"))
+    other.styles.get_element("//office:styles").append(marker("theirs"))
+    d0 = defaults(dest)
+    before = _snapshot(other)
+    dest.merge_styles_from(other)
+    if twice:
+        dest.merge_styles_from(other)
+    notes = []
+    if _snapshot(other) != before:
+        notes.append("the other document was changed by the merge")
+    if defaults(dest) != d0:
+        notes.append(f"default styles of dest were {d0}, now {defaults(dest)}")
+    ms = [s for s in dest.styles.get_element("//office:styles").children if s.tag == "draw:marker"]
+    if len(ms) != 1 or ms[0].get_attribute("style:class") != "theirs":
+        notes.append(f"{len(ms)} marker(s) after the merge: {[m.get_attribute('style:class') for m in ms]}")
+    return bool(notes), "; ".join(notes) or "ok"
